@@ -311,6 +311,23 @@ def gen_request(rng, N, rid, allow_bad=True):
         loose = ['LOOSE'] * len(nodes)
     else:
         loose = [rng.choice(['STRICT', 'LOOSE']) for _ in nodes]
+    if allow_bad and rng.random() < 0.09:
+        # several unknown names, LOOSE (so they are cleaned up, not refused), scattered among valid hops of which at
+        # least one is STRICT: the clean-up must drop exactly the unknown names together with their own hop types
+        if not nodes:
+            nodes, loose = [f'roadm {rng.choice(sites)}'], ['STRICT']
+        if 'STRICT' not in loose or rng.random() < 0.5:
+            loose[rng.randrange(len(loose))] = 'STRICT'
+        if rng.random() < 0.5:
+            loose[-1] = 'STRICT'
+        ghosts = rng.sample(['ghost1', 'ghost2', 'roadm Zz', 'fiber QQ_0'], rng.randint(2, 3))
+        if rng.random() < 0.2:
+            ghosts[1] = ghosts[0]                              # the same unknown name twice
+        for gname in ghosts:
+            k = rng.randint(0, len(nodes) - 1) if rng.random() < 0.7 else rng.randint(0, len(nodes))
+            nodes.insert(k, gname)
+            loose.insert(k, 'LOOSE')
+        style += '+ghosts'
     return {'id': str(rid), 'src': f'trx {a}', 'dst': f'trx {b}', 'nodes': nodes, 'loose': loose, 'style': style,
             'bidir': rng.random() < 0.5}
 
@@ -432,23 +449,30 @@ def judge(ctx, N, rq, obs, line, case):
     f = parse_fields(line)
     c = f['c']
     flags = {'style': rq['style']}
-    # ---- route-list clean-up (correspondence)
+    # ---- route-list clean-up: correspondence with the model; whatever gnpy did, the oracle below judges the outcome
+    # against the list as the specification cleans it (unknown LOOSE names dropped together with their own hop type)
     if c.startswith('E:'):
         mtype = c[2:].split(':')[0]
         if obs['out'] != f'E:{mtype}':
             ctx.corr_break('corr:Route.clean_route', f'clean-up: gnpy {obs["out"]}, model {c}', case, impl=obs['out'], model=c)
+            if not obs['out'].startswith('E:'):
+                ctx.violation('strict_unknown_hop_accepted', f'a STRICT hop that is not a usable element of the topology must '
+                              f'be refused ({c}); gnpy went on: {obs["out"]}', case, flags=flags)
         else:
             ctx.count('clean_rejected')
         return
     if obs['out'].startswith('E:') and 'clean_nodes' not in obs:
         ctx.corr_break('corr:Route.clean_route', f'clean-up: gnpy {obs["out"]}, model accepts', case, impl=obs['out'], model=c)
+        ctx.violation('exception', f'{obs["out"]}: {obs.get("exc", "")} raised by the route-list clean-up of a list the '
+                      f'specification accepts (neither a path nor a blocking reason)', case, flags=flags)
         return
     mine = '[' + ','.join(str(N.id[u]) for u in obs['clean_nodes']) + ']' + ''.join(
         'S' if x == 'STRICT' else 'L' for x in obs['clean_loose'])
     if mine != c:
         ctx.corr_break('corr:Route.clean_route', 'cleaned route lists differ', case, impl=mine, model=c)
-        return
-    inc_ids = [N.id[u] for u in obs['clean_nodes']]
+        flags['clean_differs'] = True
+    body = c[1:c.index(']')]
+    inc_ids = [int(x) for x in body.split(',')] if body else []
     m, s, v, r = f['m'], f['s'], f['v'], f['r']
     explicit = m.startswith('X')
     flags.update(explicit=explicit, explicit_equal=m.endswith('='), loop=oms_chain_loops(N, inc_ids), spec=s, model=m)
